@@ -195,6 +195,15 @@ theorem singleTimePoint_inside (n : Int) (ps : List (Ent × List RegexTokFact))
         · exact tokensForRegexes_inside n p.1 p.2 (h p (by simp)).1 (h p (by simp)).2 a h1 t ht
         · exact ih (fun p' hp' => h p' (by simp [hp'])) b h2 t ht
 
+/-- the points looked at are date points and ordinals only. -/
+theorem singlePoints_mem (dates ords : List Ent) : ∀ e ∈ singlePoints dates ords, e ∈ dates ∨ e ∈ ords := by
+  intro e he
+  unfold singlePoints at he
+  rw [List.mem_append] at he
+  rcases he with he | he
+  · exact Or.inl he
+  · exact Or.inr (List.mem_filter.mp he).1
+
 /-- `match_complex_cases`: what is handed to `merge_multiple_extractions` consists of date points and simple date
 ranges only (nothing invented), lies inside the text and is ordered by start — so `DtExtract.rangeLoop_mem` +
 `DtExtract.rangePairTok_inside` apply to its tokens. -/
@@ -318,10 +327,11 @@ theorem tpMergeTwoTimePoints_mem (v : Variant) (times nums : List Ent) (ending :
 
 /-- the second loop of `merge_two_time_points` ("{Date} {TimePeriod}"): every token runs from the start of one point
 to the end of the NEXT one, which starts behind it: inside the text — for any points inside the text, in any order. -/
-theorem dtpSecondLoop_inside (n : Int) (pts : Array (Ent × Bool)) (h : ∀ (i : Nat) (a : Ent × Bool), pts[i]? = some a → a.1.In n)
-    (fuel i : Nat) (oks : List Bool) (acc : List Tok) (hacc : ∀ t ∈ acc, t.Inside n) :
-    ∀ t ∈ dtpSecondLoop pts fuel i oks acc, t.Inside n := by
-  induction fuel generalizing i oks acc with
+theorem dtpSecondLoop_inside (n : Int) (pts : Array (Ent × Bool)) (ok : Nat → Bool)
+    (h : ∀ (i : Nat) (a : Ent × Bool), pts[i]? = some a → a.1.In n)
+    (fuel i : Nat) (acc : List Tok) (hacc : ∀ t ∈ acc, t.Inside n) :
+    ∀ t ∈ dtpSecondLoop pts ok fuel i acc, t.Inside n := by
+  induction fuel generalizing i acc with
   | zero => simpa [dtpSecondLoop] using hacc
   | succ fuel ih =>
     unfold dtpSecondLoop
@@ -332,35 +342,30 @@ theorem dtpSecondLoop_inside (n : Int) (pts : Array (Ent × Bool)) (h : ∀ (i :
         · exact hacc
         · split
           · rename_i hmid
-            cases oks with
-            | nil => exact hacc
-            | cons ok rest =>
-              simp only
-              split
-              · apply ih
-                intro t ht
-                rw [List.mem_append] at ht
-                rcases ht with ht | ht
-                · exact hacc t ht
-                · simp only [List.mem_singleton] at ht
-                  subst ht
-                  obtain ⟨a0, a1, a2⟩ := h i a ha
-                  obtain ⟨b0, b1, b2⟩ := h (i + 1) b hb
-                  unfold Tok.Inside; simp only; omega
-              · exact ih _ _ _ hacc
-          · exact ih _ _ _ hacc
+            split
+            · apply ih
+              intro t ht
+              rw [List.mem_append] at ht
+              rcases ht with ht | ht
+              · exact hacc t ht
+              · simp only [List.mem_singleton] at ht
+                subst ht
+                obtain ⟨a0, a1, a2⟩ := h i a ha
+                obtain ⟨b0, b1, b2⟩ := h (i + 1) b hb
+                unfold Tok.Inside; simp only; omega
+            · exact ih _ _ hacc
+          · exact ih _ _ hacc
       · exact hacc
     · exact hacc
 
-theorem dtpDateWithTimePeriod_inside (n : Int) (dates periods : List Ent) (oks : List Bool)
+theorem dtpDateWithTimePeriod_inside (n : Int) (dates periods : List Ent) (ok : Nat → Bool)
     (hd : ∀ e ∈ dates, e.In n) (hp : ∀ e ∈ periods, e.In n) :
-    ∀ t ∈ dtpDateWithTimePeriod dates periods oks, t.Inside n := by
+    ∀ t ∈ dtpDateWithTimePeriod dates periods ok, t.Inside n := by
   unfold dtpDateWithTimePeriod
   apply dtpSecondLoop_inside n
   · intro i a ha
-    have hm : a ∈ dtpSecondPoints dates periods := by
-      have := List.mem_of_getElem? (by simpa using ha : (dtpSecondPoints dates periods)[i]? = some a)
-      exact this
+    have hm : a ∈ dtpSecondPoints dates periods :=
+      List.mem_of_getElem? (by simpa using ha : (dtpSecondPoints dates periods)[i]? = some a)
     unfold dtpSecondPoints at hm
     rw [mem_sortByStart, List.mem_append, List.mem_map, List.mem_map] at hm
     rcases hm with ⟨e, he, rfl⟩ | ⟨e, he, rfl⟩
@@ -372,7 +377,7 @@ theorem dtpDateWithTimePeriod_inside (n : Int) (dates periods : List Ent) (oks :
 pairing goes out of step: dates at 0, 12, 30 each followed by its time period — the second token pairs the SECOND
 day's period `[16, 23)` with the THIRD day `[30, 33)` (inside the text; a mis-pairing, not a span defect). -/
 theorem dtpSecondLoop_skips_three :
-    dtpDateWithTimePeriod [⟨0, 3⟩, ⟨12, 3⟩, ⟨30, 3⟩] [⟨4, 7⟩, ⟨16, 7⟩, ⟨34, 7⟩] [true, true, true, true]
+    dtpDateWithTimePeriod [⟨0, 3⟩, ⟨12, 3⟩, ⟨30, 3⟩] [⟨4, 7⟩, ⟨16, 7⟩, ⟨34, 7⟩] (fun _ => true)
       = [⟨0, 11⟩, ⟨16, 33⟩] := by decide
 
 /-
@@ -603,9 +608,10 @@ theorem todAmPm_one_short :
 /-- the adjacency pass: a time period right in front of / right behind a token of the first pass extends it; the
 extended token lies inside the text. `before` periods lie in `source[0:token.start]` with `gap` up to the token,
 `after` periods lie in `source[token.end:]`. -/
-theorem todAdjOne_inside (n : Int) (t : Tok) (a : TodAdj) (ht : t.Inside n)
-    (hb : ∀ x ∈ a.before, x.1.In t.start ∧ 0 ≤ x.2.1 ∧ x.1.start + x.1.len + x.2.1 ≤ t.start)
-    (ha : ∀ x ∈ a.after, x.1.In (n - t.stop)) : ∀ u ∈ todAdjOne n t a, u.Inside n := by
+theorem todAdjOne_inside (n : Int) (t : Tok) (before : List (Ent × Int × Bool)) (after : List (Ent × Bool))
+    (ht : t.Inside n)
+    (hb : ∀ x ∈ before, x.1.In t.start ∧ 0 ≤ x.2.1 ∧ x.1.start + x.1.len + x.2.1 ≤ t.start)
+    (ha : ∀ x ∈ after, x.1.In (n - t.stop)) : ∀ u ∈ todAdjOne n t before after, u.Inside n := by
   obtain ⟨t0, t1, t2⟩ := ht
   have hl : t.length = t.stop - t.start := by unfold Tok.length; split <;> omega
   intro u hu
